@@ -102,6 +102,27 @@ func (w *World) generate(sel func(fc *FuncContract) bool) {
 	}
 }
 
+// generateLemmas: closed formulas proved once (obligation lemma:NAME)
+func (w *World) generateLemmas(sel func(props []string, tier string) bool) {
+	for _, cl := range w.prog.C.Lemmas {
+		tier := cl.Loop
+		if tier == "" {
+			tier = "A"
+		}
+		if !sel(cl.Props, tier) {
+			continue
+		}
+		fv := &FnV{prog: w.prog, smt: w.smt, eff: w.eff, key: "lemma:" + cl.Label, tags: map[string]bool{}, counters: map[string]int{},
+			inlined: map[string]bool{}, calledContracts: map[string]bool{}, instName: "lemma:" + cl.Label}
+		st := &State{vars: map[types.Object]Val{}, heap: map[string]string{}}
+		g := fv.evalWithEnv(st, cl, map[string]Val{}, map[string]Val{}, st)
+		vc := &VC{Name: "lemma:" + cl.Label, Func: "lemma:" + cl.Label, Kind: "lemma", Goal: g, fv: fv, Props: cl.Props, Tier: tier, ClauseText: cl.Text, Pos: fmt.Sprintf("contracts_verif.go:%d", cl.Line)}
+		fv.vcs = append(fv.vcs, vc)
+		res := &FuncResult{Key: "lemma:" + cl.Label, Inst: "lemma:" + cl.Label, VCs: fv.vcs, Outside: fv.outside}
+		w.res = append(w.res, res)
+	}
+}
+
 func main() {
 	if len(os.Args) < 2 {
 		fmt.Println("usage: govc verify|check|frame|dump ...")
@@ -146,6 +167,12 @@ func cmdVerify(args []string) {
 			return ok
 		}
 		return true
+	})
+	w.generateLemmas(func(props []string, tier string) bool {
+		if *fn != "" {
+			return false
+		}
+		return *prop == "" || hasProp(props, *prop)
 	})
 	var all []*VC
 	for _, r := range w.res {
